@@ -63,6 +63,8 @@ def run_check(prop, mod, tier, level, only=None):
     t0 = time.time()
     seed = int(os.environ.get('VERIF_SEED', '0') or 0)
     scratch = core.Scratch(prop.lower())
+    import shutil
+    shutil.rmtree(os.path.join(core.VERIF, 'replays', prop), ignore_errors=True)
     rc = 0
     jobs, unit = [], None
     undecided_reason = None
